@@ -126,20 +126,25 @@ func has(evs []int, e int) bool { return eventsHave(evs, e) }
 // C11: SMP reports success exactly when the secrets match within one session
 func genC11(c *Ctx) {
 	c.Rep.Rule = "SMP runs inside real sessions: secret shapes (empty, short, long, binary, one byte different), with/without question, either initiator, repeated and back-to-back runs with traffic and rotations in between, v2/v3; a relay between two separately keyed sessions forwarding the SMP payloads; every step compared with the symbolic SMP model (exponent representation); oracle: Success on both sides iff the secrets are byte-equal, never Success through the relay"
-	n := 6
+	n := 12
 	if c.Thorough() {
-		n = 80
+		n = 120
 	}
 	for i := 0; i < n; i++ {
 		pol := c.pickVersionPolicy()
-		if i%3 == 2 {
+		if i%4 == 3 && i%6 != 3 {
 			c11Relay(c, pol)
-			continue
 		}
 		pols := []int{pol, pol}
 		s := newSys(pols, c.R.U64())
-		if !s.Handshake(1, 2) {
+		variant := i % 6
+		if !c11Establish(c, s, variant) {
+			c.Violate("handshake-failed", fmt.Sprintf("variant=%d", variant), "the session could not be (re-)established", s.trace)
 			continue
+		}
+		c.Count(fmt.Sprintf("smp:session-variant=%d", variant))
+		if s.ps[1].c.GetSSID() != s.ps[2].c.GetSSID() {
+			c.Violate("ssid-differs", fmt.Sprintf("variant=%d", variant), "both sides are encrypted in one session but report different session ids", s.trace)
 		}
 		runs := 1 + c.R.Intn(3)
 		for r := 0; r < runs; r++ {
@@ -185,6 +190,60 @@ func genC11(c *Ctx) {
 		if i == 0 {
 			c.Sample(s.trace[len(s.trace)-min2(10, len(s.trace)):])
 		}
+	}
+}
+
+// c11Establish: the ways two parties can come to share a session before SMP runs
+//   0 first exchange, 1 first exchange started by the other side, 2 refresh while both are encrypted,
+//   3 one side ended locally and its disconnect message was lost (the other side is still encrypted when the new
+//     exchange completes), 4 the peer ended (we were 'finished'), 5 two refreshes started by different sides
+func c11Establish(c *Ctx, s *Sys, variant int) bool {
+	both := func() bool { return s.ps[1].c.IsEncrypted() && s.ps[2].c.IsEncrypted() }
+	switch variant {
+	case 0:
+		return s.Handshake(1, 2)
+	case 1:
+		return s.Handshake(2, 1)
+	case 2:
+		if !s.Handshake(1, 2) {
+			return false
+		}
+		s.Send(1, []byte("old session"))
+		s.Pump(1, 2, 6)
+		s.tick(130)
+		return s.Handshake(2, 1)
+	case 3:
+		if !s.Handshake(1, 2) {
+			return false
+		}
+		a := 1 + c.R.Intn(2)
+		before := len(s.ps[a].outs)
+		s.End(a)
+		s.dropFrom(a, before) // the disconnect message never arrives
+		s.tick(130)
+		s.Query(a, 3-a) // the side that lost its state asks again
+		s.Pump(1, 2, 24)
+		return both()
+	case 4:
+		if !s.Handshake(1, 2) {
+			return false
+		}
+		s.End(2)
+		s.Pump(1, 2, 6)
+		s.tick(130)
+		s.Query(1, 2)
+		s.Pump(1, 2, 24)
+		return both()
+	default:
+		if !s.Handshake(1, 2) {
+			return false
+		}
+		s.tick(130)
+		if !s.Handshake(2, 1) {
+			return false
+		}
+		s.tick(130)
+		return s.Handshake(1, 2)
 	}
 }
 
